@@ -894,7 +894,11 @@ impl ProtocolState {
                         }
                     }
                     MqttPacket::Publish(publish) => {
-                        if publish.duplicate {
+                        if self.pending_publish_operations.values().any(|pending_id| *pending_id == id) {
+                            // a partially-encoded pubrel of a publish that was written on this
+                            // connection; it is requeued exactly once when the unacked publish
+                            // table is processed by the caller
+                        } else if publish.duplicate {
                             self.resubmit_operation_queue.push_front(id);
                         } else if publish.qos == QualityOfService::ExactlyOnce && operation.qos2_pubrel.is_some() {
                             self.high_priority_operation_queue.push_front(id);
